@@ -383,7 +383,15 @@ def rule_r3(ctx, rep):
         if not ok:
             rep.add("R3", fi.qname, c, "a parent prefix is pushed into the child without testing that the child does not bind it already: "
                     "the child's own bindings must win", fi.loc(c))
-        a = c.args
+        a = list(c.args)
+        # keyword form: child.add_namespace(prefix=p, namespace=...) -- order the actuals by the callee's parameters
+        for tg in ctx.world.resolve_call(ctx.world.types(fi), c):
+            if tg.func is not None and c.keywords:
+                am = ctx.world.arg_map(tg, c)
+                ps = [p_ for p_ in tg.func.params if not (tg.func.bound and p_ == tg.func.params[0])]
+                if all(p_ in am for p_ in ps[:2]):
+                    a = [am[p_] for p_ in ps if p_ in am]
+                break
         ok_args = len(a) >= 2 and isinstance(a[0], ast.Name) and a[0].id == pv and (norm(a[1]).replace("_nsmap", "nsmap") == f"{selfp}.nsmap[{pv}]" or
                                                                                     (valvar is not None and isinstance(a[1], ast.Name) and a[1].id == valvar))
         rep.oblige(("R3", "args", norm(c)), ok_args)
@@ -425,10 +433,11 @@ def run(ctx, rep):
         "the property's alphabet must be dominated (must-dataflow over all paths) by a re-binding of that map to a fresh dict; "
         "the mutators write only the node and its children, capture the old dict's identity before re-binding, re-attach children "
         "only under the identity test and visit every child; add_child hands over exactly the parent's bindings the child lacks")
-    rep.rules_run = ["R1", "R2", "R3"]
-    rep.assumptions += ["NOT decided: the full visibility semantics over all histories",
+    rep.rules_run = ["R1", "R2", "R3", "R4"]
+    rep.assumptions += ["NOT decided: the visibility semantics over all histories (R4 decides single operations under every sharing pattern)",
                         "fix_nsmap / set_nsmap install a caller-supplied map and are outside the property's alphabet (noted, not armed)"]
     only = getattr(rep, "only", None)
-    for name, fn in (("R1", rule_r1), ("R2", rule_r2), ("R3", rule_r3)):
+    from .c13_worlds import rule_r4
+    for name, fn in (("R1", rule_r1), ("R2", rule_r2), ("R3", rule_r3), ("R4", rule_r4)):
         if only in (None, name):
             fn(ctx, rep)
